@@ -361,8 +361,10 @@ def PVal.fields : PVal → List (String × PVal)
 
 def lookupF (fs : List (String × PVal)) (k : String) : Option PVal := (fs.find? (fun p => p.1 == k)).map (·.2)
 
-def setF (fs : List (String × PVal)) (k : String) (v : PVal) : List (String × PVal) :=
-  fs.map (fun p => if p.1 == k then (p.1, v) else p)
+/-- the map assignment `m[k] = v` for a key that is present: the (one) entry of that key is replaced -/
+def setF : List (String × PVal) → String → PVal → List (String × PVal)
+  | [], _, _ => []
+  | (k', x) :: rest, k, v => if k' == k then (k', v) :: rest else (k', x) :: setF rest k v
 
 /-- the value at a response path below `v` -/
 def PVal.getAt : PVal → Path → Option PVal
@@ -651,6 +653,13 @@ inductive MResponse where
   | fuelOut
 deriving Inhabited
 
+/-- the result the goroutine of `ExecutePlan` sends: data (or none when a failure reached the request level) and the errors -/
+def MResponse.of (out : Res (List (String × PVal)) × MSt) : MResponse :=
+  match out.1 with
+  | .ok fs => .result (some fs) out.2.errs.reverse out.2.events.reverse
+  | .fail => .result none out.2.errs.reverse out.2.events.reverse
+  | .fuelOut => .fuelOut
+
 /-- the goroutine body of `ExecutePlan` after variable coercion and specialisation -/
 def runPlan (c : Ctx) (alt : Alt) (q : Plan) (fuel : Nat) (st : MSt) : Res (List (String × PVal)) × MSt :=
   if q.isMutation then
@@ -678,10 +687,7 @@ def executePlanCore (p : Plan) (inputs : Vars) (w : World) (memo : Memo) (fuel :
     let c : Ctx := { schema := q.schema, frags := q.frags, vars := vars, world := w }
     let st0 : MSt := { errs := [], events := [], memo := if p.dynamicDirectives then [] else memo }
     let out := runPlan c (abstractAlternative q.schema q.frags q.planVars) q fuel st0
-    match out.1 with
-    | .ok fs => (.result (some fs) out.2.errs.reverse out.2.events.reverse, out.2.memo)
-    | .fail => (.result none out.2.errs.reverse out.2.events.reverse, out.2.memo)
-    | .fuelOut => (.fuelOut, out.2.memo)
+    (MResponse.of out, out.2.memo)
 
 /-- `ExecutePlan(plan, params)`. `memo` = the plan's `abstractAlternatives` as left by earlier executions; the second component is
 what they hold afterwards (a specialised plan is dropped together with its memo). -/
